@@ -551,8 +551,9 @@ func normalizeInlineText(s string) string {
 		return ""
 	}
 
-	// Collapse internal whitespace runs to single spaces
-	out := strings.Join(strings.FieldsFunc(trimmed, isHTMLSpace), " ")
+	// Collapse internal whitespace runs to single spaces (string literals inside {{ }} are
+	// part of an expression: their whitespace is kept)
+	out := collapseSpace(trimmed)
 
 	// Preserve leading space if original had one (boundary between elements)
 	if isHTMLSpace(rune(s[0])) {
@@ -565,6 +566,42 @@ func normalizeInlineText(s string) string {
 	}
 
 	return out
+}
+
+// collapseSpace replaces every run of HTML whitespace by one space, except inside the string
+// literals of mustache expressions.
+func collapseSpace(s string) string {
+	var b strings.Builder
+	b.Grow(len(s))
+	inMustache, quote, pending := false, byte(0), false
+	for i := 0; i < len(s); i++ {
+		c := s[i]
+		if quote != 0 {
+			b.WriteByte(c)
+			if c == quote {
+				quote = 0
+			}
+			continue
+		}
+		if isHTMLSpace(rune(c)) {
+			pending = true
+			continue
+		}
+		if pending {
+			b.WriteByte(' ')
+			pending = false
+		}
+		switch {
+		case !inMustache && c == '{' && i+1 < len(s) && s[i+1] == '{':
+			inMustache = true
+		case inMustache && c == '}' && i+1 < len(s) && s[i+1] == '}':
+			inMustache = false
+		case inMustache && (c == '"' || c == '\''):
+			quote = c
+		}
+		b.WriteByte(c)
+	}
+	return b.String()
 }
 
 // isHTMLSpace reports whether r is whitespace for HTML. A non-breaking space (U+00A0) and
